@@ -765,7 +765,7 @@ class World:
                     xd = x.data if isinstance(x, Tensor) else x
                     if isinstance(xd, np.ndarray) and xd.size and oa.size and np.shares_memory(xd, oa):
                         expect_fail = "either"
-        self._mark_entered(refs)
+        self._mark_entered([r for k, r in enumerate(refs) if k not in getattr(od, "unlocked_args", ())])
         try:
             t = od.mg(mg, spell, rargs, p, kw)
         except Exception as e:
